@@ -18,7 +18,7 @@ func init() {
 		ID: "C11", Level: "exploration", Scenarios: []string{"cdp"},
 		Oracles:   func(w *World) []Oracle { return []Oracle{&auxObserver{}, newC11()} },
 		Quick:     Budget{Runs: 144, MaxEvents: 200},
-		Thorough:  Budget{Runs: 6000, MaxEvents: 500},
+		Thorough:  Budget{Runs: 2400, MaxEvents: 400},
 		Essential: []string{"c11.custody_checked_nonempty"},
 		BatchProbe: []string{"c11.english_bid_checked", "c11.outbid_refund_checked", "c11.english_close_checked", "aux.surplus_closed", "aux.debt_closed",
 			"c11.limit_deposit_checked", "c11.limit_withdraw_checked", "c11.limit_cancel_checked", "aux.limit_autofill", "c11.limit_total_checked_nonempty"},
@@ -39,7 +39,7 @@ func init() {
 		ID: "C13", Level: "exploration", Scenarios: []string{"cdp"},
 		Oracles:   func(w *World) []Oracle { return []Oracle{&auxObserver{}, newC13()} },
 		Quick:     Budget{Runs: 144, MaxEvents: 200},
-		Thorough:  Budget{Runs: 6000, MaxEvents: 500},
+		Thorough:  Budget{Runs: 2400, MaxEvents: 400},
 		Essential: []string{"c13.ledger_checked_with_fees"},
 		BatchProbe: []string{"c13.ledger_checked_with_fees", "c13.collector_inflow_observed", "c13.collector_outflow_observed", "c13.locker_total_checked_nonempty",
 			"c13.locker_withdraw_checked", "c13.locker_close_checked", "aux.locker_reward_paid", "aux.surplus_started", "aux.surplus_closed",
